@@ -190,6 +190,19 @@ func startWorker() *worker {
 	return w
 }
 
+// exitCode waits for a worker whose output has ended and returns its exit status (-1 if it was killed by a signal).
+func (w *worker) exitCode() int {
+	_ = w.in.Close()
+	err := w.cmd.Wait()
+	if err == nil {
+		return 0
+	}
+	if ee, ok := err.(*exec.ExitError); ok {
+		return ee.ExitCode()
+	}
+	return -1
+}
+
 func (w *worker) stop() {
 	_ = w.in.Close()
 	_ = w.cmd.Process.Kill()
@@ -219,8 +232,13 @@ func isolated(cases []string) {
 		select {
 		case line, ok := <-w.lines:
 			if !ok {
-				w.stop()
+				code := w.exitCode()
 				w = nil
+				if code == 1 {
+					// a deliberate os.Exit(1) (the library's fatal-exit path) is an observation of its own, not a crash
+					Emit(c, "EXIT1")
+					continue
+				}
 				bad++
 				Emit(c, "CRASH")
 				continue
